@@ -87,12 +87,46 @@ def check_one(case, ctx, deep):
             ctx.check(got is wm, 'lattice.meet(multiset)', q, lambda: f'meet = {got!r}, want {wm!r}')
 
 
+def big_boolean(ctx, n, seed):
+    """Binary joins and meets in the Boolean lattice 2**n (closed form: union / intersection of extents), on pairs
+    whose indexes lie on both sides of 2**16 and 2**17 - index arithmetic of a library has its thresholds there."""
+    from vlib import bigcases
+    case = bigcases.contranominal(n)
+    plain = {'family': 'contranominal', 'n': n}
+    ctx.case(plain, True, ['big-boolean'])
+    maps = lib.Maps(case)
+    context = ctx.call('Context()', plain, lib.context_of, case, False)
+    lattice = ctx.call('context.lattice', plain, lambda: context.lattice)
+    members = list(lattice)
+    k = len(members)
+    ctx.check(k == 1 << n, 'big/len', plain, lambda: f'{k} concepts, want {1 << n}')
+    by_ext = {maps.omask(c.extent): c for c in members}
+    rnd = gen._random.Random(repr(('big-boolean', n, seed)))
+    special = [0, 1, 2, 3, k - 1, k - 2, k // 2, 65535, 65536, 65537, 65536 + 1, 65536 * 2 - 1] + \
+              [rnd.randrange(k) for _ in range(40)]
+    special = [i for i in special if 0 <= i < k]
+    for i in special:
+        for j in special:
+            x, y = members[i], members[j]
+            ex, ey = maps.omask(x.extent), maps.omask(y.extent)
+            q = lambda: dict(plain, pair=[i, j])
+            for site, fn, want in (('big/x|y', lambda: x | y, by_ext[ex | ey]), ('big/x&y', lambda: x & y, by_ext[ex & ey]),
+                                   ('big/join', lambda: lattice.join([x, y]), by_ext[ex | ey]),
+                                   ('big/meet', lambda: lattice.meet([x, y]), by_ext[ex & ey])):
+                got = ctx.call(site, q, fn)
+                ctx.check(got is want, site, q, lambda: f'{site} of members {i} and {j} is member {got.index}, want {want.index}')
+
+
 def plan(tier, seed):
-    return tablecheck.plan(tier, seed, wide=True, quick_cells=12, thorough_cells=16, thorough_shapes=(), thorough_multisets=(),
-                           hyp_quick=(12, 80), hyp_thorough=(16, 800))
+    tasks = tablecheck.plan(tier, seed, wide=True, quick_cells=12, thorough_cells=16, thorough_shapes=(), thorough_multisets=(),
+                            hyp_quick=(12, 80), hyp_thorough=(16, 800))
+    return ([{'kind': 'big-boolean', 'n': 17}] if tier == 'thorough' else []) + tasks
 
 
 def run(task, ctx):
+    if task['kind'] == 'big-boolean':
+        ctx.guarded(big_boolean, ctx, task['n'], ctx.seed)
+        return
     tablecheck.run(task, ctx, check_one)
 
 
